@@ -465,6 +465,7 @@ fn stalled_dropper(p: &Params) -> Program {
     // root0 -> p -> c, root1 -> c, and an extra Rc r to c.
     let age = p.get("age", 4) as usize;
     let k = p.get("k", 3) as usize;
+    let split = p.get("split", 0) != 0;
     Program {
         setup: Some(body(move |c, w| {
             build_chain2(c, w, 0, 0);
@@ -484,13 +485,17 @@ fn stalled_dropper(p: &Params) -> Program {
                 let r = w.rc[0].take();
                 c.drop_rc(r);
             }),
-            // advances the clock, unlinks p, leaves p's attempt one round short
+            // advances the clock, unlinks p, leaves p's attempt one round short (with `split`, the
+            // second of the two rounds is a thread of its own, so that the dropper can read the
+            // epoch between them without costing a preemption: a *pinned* dropper whose stamp
+            // is one epoch behind, followed by one more advance, is the case the third epoch of
+            // the age threshold exists for)
             body(move |c, w| {
                 c.rounds(k);
                 let g = c.pin();
                 c.store(&w.roots[0], Rc::null(), &g);
                 c.unpin(g);
-                c.rounds(2);
+                c.rounds(if split { 1 } else { 2 });
             }),
             // the reader, through the second link
             body(|c, w| {
@@ -508,7 +513,10 @@ fn stalled_dropper(p: &Params) -> Program {
             }),
             // runs p's attempt (and the cascade)
             rounds_thread(1),
-        ],
+        ]
+        .into_iter()
+        .chain(if split { Some(rounds_thread(1)) } else { None })
+        .collect(),
         ..base(p)
     }
 }
